@@ -31,6 +31,8 @@ namespace c10
     struct IO
     {
         T in[4];        // a, b (first operand), c, d (second operand; scalar forms use c only)
+        long double sx; // the scalar operand of the scalar forms as an exact value (every scalar type embeds exactly in x87
+                        // long double); equals in[2] unless the scalar's type can hold values that T cannot (part SCALAR)
         T out[2];       // result parts (bool / real results in out[0])
         T post[4];      // operands as seen through the operand objects after the operation
         T stor[4];      // the storage the operands were built over, after the operation
@@ -96,12 +98,32 @@ namespace c10
         C10_POST2()
     }
 
-    // x OP s   (S = T or int)
+    // the scalar types of the part SCALAR: every standard arithmetic type (enable_scalar is xtl::is_arithmetic)
+    typedef bool sc_bool;
+    typedef char sc_char;
+    typedef signed char sc_schar;
+    typedef unsigned char sc_uchar;
+    typedef wchar_t sc_wchar;
+    typedef char16_t sc_char16;
+    typedef char32_t sc_char32;
+    typedef short sc_short;
+    typedef unsigned short sc_ushort;
+    typedef int sc_int;
+    typedef unsigned sc_uint;
+    typedef long sc_long;
+    typedef unsigned long sc_ulong;
+    typedef long long sc_llong;
+    typedef unsigned long long sc_ullong;
+    typedef float sc_float;
+    typedef double sc_double;
+    typedef long double sc_ldouble;
+
+    // x OP s   (S = T, int, or any arithmetic type in the part SCALAR)
     template <class T, class Op, int K1, bool B1, class S>
     void v_sright(IO<T>& io)
     {
         C10_OPERAND1(K1, B1)
-        S s = static_cast<S>(sc);
+        S s = static_cast<S>(io.sx);
         auto z = Op::bin(x, s);
         io.out[0] = z.real(); io.out[1] = z.imag();
         C10_POST1()
@@ -112,7 +134,7 @@ namespace c10
     void v_sleft(IO<T>& io)
     {
         C10_OPERAND1(K1, B1)
-        S s = static_cast<S>(sc);
+        S s = static_cast<S>(io.sx);
         auto z = Op::bin(s, x);
         io.out[0] = z.real(); io.out[1] = z.imag();
         C10_POST1()
@@ -123,7 +145,7 @@ namespace c10
     void v_cmpds(IO<T>& io)
     {
         C10_OPERAND1(K1, B1)
-        S s = static_cast<S>(sc);
+        S s = static_cast<S>(io.sx);
         auto& r = Op::cmpd(x, s);
         if (std::addressof(r) != std::addressof(x)) io.flags |= F_RETREF;
         io.out[0] = x.real(); io.out[1] = x.imag();
@@ -262,11 +284,12 @@ namespace c10
     }
 
     // x = s  (scalar): real part s, imaginary part zero
-    template <class T, int K1, bool B1>
+    template <class T, int K1, bool B1, class S = T>
     void v_asgs(IO<T>& io)
     {
         C10_OPERAND1(K1, B1)
-        auto& r = (x = sc);
+        S s = static_cast<S>(io.sx);
+        auto& r = (x = s);
         if (std::addressof(r) != std::addressof(x)) io.flags |= F_RETREF;
         io.out[0] = x.real(); io.out[1] = x.imag();
         C10_POST1()
